@@ -132,6 +132,16 @@ def gen(prop, oracle, tier):
         "two-input transformer; port a delivers tags 0.0,0.1,0.2, port b the same tags in a solver-chosen order; gather",
         Kx=1 if quick else 2,
     )
+    # depth-2 gather (flat cross product) whose elements complete in a solver-chosen order
+    add(
+        "gather2_2x2",
+        "g_gather2(e, [10, 20, 30, 40], [q0, q1, q2, 0])",
+        [f"q{i}: int" for i in range(3)],
+        ["0 <= q0 <= 3", "0 <= q1 <= 3", "0 <= q2 <= 3", "q0 != q1", "q0 != q2", "q1 != q2"],
+        1,
+        "elements tagged 0.i.j (2 x 2, flat cross product) reach a transformer and a depth-2 gather in a solver-chosen completion order (all 24 orders; concrete distinct values)",
+        Kx=1 if quick else 2,
+    )
     # a scattered input joined with two plain inputs (broadcast)
     for n in (1, 2):
         add(
